@@ -1,5 +1,7 @@
 (* C10 — executable model M of pkg/generic/uax.go (Aux), defmethod.go (addMethodCaller),
-   remove-method.go, method.go (Method.Call / InnerCall) and whoploc.go (HasNext / Continue).
+   remove-method.go, method.go (Method.Call / InnerCall / primaryCall), whoploc.go (HasNext / Continue),
+   call-next-method.go and next-method-p.go, AS REPAIRED by repo_fixes/C10-1 .. C10-8 (the model of the
+   unrepaired code is kept in Orig.v for the refutations).
    Definitions only; proofs are in Proofs.v so that the model still runs when a proof breaks. *)
 From Coq Require Export List String Bool Arith NArith Lia.
 Export ListNotations.
@@ -12,8 +14,24 @@ Definition mid := N.                        (* identity of a method body *)
 
 Inductive qual := QPrimary | QBefore | QAfter | QAround.
 
-(* a method body: its identity and whether (for :around) it calls call-next-method *)
-Record body := { b_id : mid; b_next : bool }.
+(* The arguments of a call are objects of given classes. To observe which arguments a method
+   receives, every class has two objects (a main one and an alternate); an argument vector says
+   for each required argument which of the two it is. call-next-method with explicit arguments
+   passes, for each position, the object it received or the other object of the same class. *)
+Definition argv := list bool.
+Fixpoint xor_args (v f : list bool) : argv :=
+  match v, f with
+  | x :: v', y :: f' => xorb x y :: xor_args v' f'
+  | _, [] => v
+  | [], _ => []
+  end.
+
+(* a method body: (vtr id args...) [ (vnp (next-method-p)) ] then one (call-next-method ...) per
+   element of b_calls - the element says which arguments are exchanged for the alternate object;
+   (call-next-method) without arguments and (call-next-method a b) are both the all-false element -
+   then, when it is an :around method or has calls, (vtr -id). The value is that of the last
+   call-next-method, or id when there is none. :before / :after bodies only trace. *)
+Record body := { b_id : mid; b_nmp : bool; b_calls : list (list bool) }.
 
 Record combo := { c_primary : option body; c_before : option body;
                   c_after : option body; c_wrap : option body }.
@@ -53,10 +71,9 @@ Section Assoc.
 End Assoc.
 
 (* Aux: the cache maps the tuple of *first* hierarchy entries of the arguments (buildSpecKey) to
-   the list of combinations collected for it. The Go code stores pointers to the combinations, so
-   the cache entry is modelled as the list of method keys and is dereferenced at call time. *)
+   the effective method built for it: since C10-6 a list of COPIES of the combinations. *)
 Record aux := { methods : list (key * combo);
-                cache : list (key * list key);
+                cache : list (key * list combo);
                 dflt : option body;
                 reqcnt : nat }.
 
@@ -113,85 +130,98 @@ Fixpoint collect (ms : list (key * combo)) (prefix : key) (hiers : list (list cl
   | h :: hs => flat_map (fun c => collect ms (prefix ++ [c]) hs) h
   end.
 
-Inductive event := Ev (m : mid) | EvEnd (m : mid).
-Inductive result := RVal (m : mid)       (* value of the primary: its identity *)
-                  | RNil                  (* no primary ran *)
+Inductive event := Ev (m : mid) (v : argv)   (* a body starts, with the arguments it received *)
+                 | EvNmp (b : bool)          (* what (next-method-p) answered *)
+                 | EvEnd (m : mid).          (* an :around body, or a primary with call-next-method, ends *)
+Inductive result := RVal (m : mid)       (* value of a body without call-next-method: its identity *)
+                  | RNil                  (* InnerCall found no primary (never reached, see Proofs) *)
                   | RNoApplicable         (* no-applicable-method *)
                   | RNoNext               (* no-next-method *)
-                  | RNoPrimary            (* applicable methods but no primary (never produced by M) *)
                   | ROutOfFuel
                   | ROther.               (* observed only: any other condition, fault or timeout *)
+(* a condition unwinds through the bodies that are running *)
+Definition is_err (r : result) : bool :=
+  match r with RVal _ | RNil => false | _ => true end.
 
 Definition deref (ms : list (key * combo)) (ks : list key) : list combo :=
   flat_map (fun k => match alookup k ms with Some c => [c] | None => [] end) ks.
 
-Definition opt_ev (o : option body) : list event := match o with Some b => [Ev (b_id b)] | None => [] end.
+Definition opt_ev (o : option body) (v : argv) : list event :=
+  match o with Some b => [Ev (b_id b) v] | None => [] end.
 
-(* Method.InnerCall *)
-Definition inner_call (cs : list combo) : list event * result :=
-  let befores := flat_map (fun c => opt_ev (c_before c)) cs in
-  let prim := match flat_map (fun c => match c_primary c with Some b => [b] | None => [] end) cs with
-              | b :: _ => ([Ev (b_id b)], RVal (b_id b)) | [] => ([], RNil) end in
-  let afters := flat_map (fun c => opt_ev (c_after c)) (rev cs) in
-  (befores ++ fst prim ++ afters, snd prim).
+(* ---- running one body. [hasnext] is what WhopLoc.HasNext answers for the body's location and
+   [next v'] what WhopLoc.Continue does with the arguments v'. ---- *)
+Definition run_calls (v : argv) (hasnext : bool) (next : argv -> list event * result) :=
+  fix go (calls : list (list bool)) (last : result) : list event * result :=
+    match calls with
+    | [] => ([], last)
+    | f :: rest =>
+        if hasnext then
+          let '(tr, r) := next (xor_args v f) in
+          if is_err r then (tr, r)
+          else let '(tr2, r2) := go rest r in (tr ++ tr2, r2)
+        else ([], RNoNext)               (* call-next-method applies no-next-method: an error *)
+    end.
+Definition run_body (ends : bool) (b : body) (v : argv) (hasnext : bool)
+                    (next : argv -> list event * result) : list event * result :=
+  let '(tr, r) := run_calls v hasnext next (b_calls b) (RVal (b_id b)) in
+  let head := Ev (b_id b) v :: (if b_nmp b then [EvNmp hasnext] else []) in
+  if is_err r then (head ++ tr, r)
+  else (head ++ tr ++ (if ends then [EvEnd (b_id b)] else []), r).
+(* a primary ends with (vtr -id) only when it has a call-next-method form *)
+Definition prim_ends (b : body) : bool := match b_calls b with [] => false | _ => true end.
 
-(* index of the first combination at position >= from that has a Wrap *)
-Fixpoint next_wrap (cs : list combo) (from : nat) (fuel : nat) : option nat :=
-  match fuel with
-  | O => None
-  | S fuel' =>
-      match nth_error cs from with
-      | None => None
-      | Some c => match c_wrap c with Some _ => Some from | None => next_wrap cs (S from) fuel' end
-      end
+(* first combination at index >= i that has the selected daemon *)
+Fixpoint find_idx (sel : combo -> option body) (l : list combo) (i : nat) : option (nat * body) :=
+  match l with
+  | [] => None
+  | c :: l' => match sel c with Some b => Some (i, b) | None => find_idx sel l' (S i) end
   end.
-Definition has_inner (cs : list combo) : bool :=
-  existsb (fun c => match c_primary c, c_before c, c_after c with None, None, None => false | _, _, _ => true end) cs.
+Definition find_from (sel : combo -> option body) (cs : list combo) (i : nat) : option (nat * body) :=
+  find_idx sel (skipn i cs) i.
+Definition is_some {A} (o : option A) : bool := match o with Some _ => true | None => false end.
 
-(* run_wrap: the Wrap of combination i runs with a WhopLoc whose Current is cur.
-   call-next-method = HasNext (which advances Current!) followed by Continue (which advances again) *)
-Fixpoint run_wrap (fuel : nat) (cs : list combo) (i cur : nat) : list event * result :=
+(* Method.primaryCall(start = i): the first primary at or after i runs with
+   WhopLoc{Current: j, Primary: true}; for that location HasNext = a later primary exists and
+   Continue = primaryCall(j+1) *)
+Fixpoint run_prim (fuel : nat) (cs : list combo) (i : nat) (v : argv) : list event * result :=
   match fuel with
   | O => ([], ROutOfFuel)
   | S fuel' =>
-      match nth_error cs i with
-      | Some c =>
-          match c_wrap c with
-          | Some b =>
-              if b_next b then
-                (* HasNext *)
-                let cur1 := S cur in
-                let '(hasnext, cur2) :=
-                  match next_wrap cs cur1 (List.length cs) with
-                  | Some j => (true, j)
-                  | None => (has_inner cs, Nat.max cur1 (List.length cs))
-                  end in
-                if hasnext then
-                  (* Continue *)
-                  let cur3 := S cur2 in
-                  let '(tr, r) :=
-                    match next_wrap cs cur3 (List.length cs) with
-                    | Some j' => run_wrap fuel' cs j' (S j')
-                    | None => inner_call cs
-                    end in
-                  (* an error raised further in unwinds through this body *)
-                  match r with
-                  | RNoNext | ROutOfFuel => (Ev (b_id b) :: tr, r)
-                  | _ => (Ev (b_id b) :: tr ++ [EvEnd (b_id b)], r)
-                  end
-                else ([Ev (b_id b)], RNoNext)
-              else ([Ev (b_id b); EvEnd (b_id b)], RVal (b_id b))
-          | None => ([], ROutOfFuel)
-          end
-      | None => ([], ROutOfFuel)
+      match find_from c_primary cs i with
+      | None => ([], RNil)
+      | Some (j, b) =>
+          run_body (prim_ends b) b v (is_some (find_from c_primary cs (S j)))
+                   (fun v' => run_prim fuel' cs (S j) v')
       end
   end.
 
+(* Method.InnerCall: befores, primaryCall(0), afters from the last combination to the first *)
+Definition inner_call (fuel : nat) (cs : list combo) (v : argv) : list event * result :=
+  let befores := flat_map (fun c => opt_ev (c_before c) v) cs in
+  let '(tr, r) := run_prim fuel cs 0 v in
+  if is_err r then (befores ++ tr, r)
+  else (befores ++ tr ++ flat_map (fun c => opt_ev (c_after c) v) (rev cs), r).
+
+(* the Wrap b of combination i runs with WhopLoc{Current: i}: HasNext = a later Wrap exists or
+   some combination has a Primary; Continue = the next Wrap j > i (location j) or InnerCall *)
+Fixpoint run_wrap (fuel : nat) (cs : list combo) (i : nat) (b : body) (v : argv) : list event * result :=
+  match fuel with
+  | O => ([], ROutOfFuel)
+  | S fuel' =>
+      run_body true b v
+        (is_some (find_from c_wrap cs (S i)) || is_some (find_from c_primary cs 0))
+        (fun v' => match find_from c_wrap cs (S i) with
+                   | Some (j, b') => run_wrap fuel' cs j b' v'
+                   | None => inner_call (S (List.length cs)) cs v'
+                   end)
+  end.
+
 (* Method.Call *)
-Definition method_call (cs : list combo) : list event * result :=
-  match next_wrap cs 0 (List.length cs) with
-  | Some i => run_wrap (S (List.length cs)) cs i i
-  | None => inner_call cs
+Definition method_call (cs : list combo) (v : argv) : list event * result :=
+  match find_from c_wrap cs 0 with
+  | Some (i, b) => run_wrap (S (List.length cs)) cs i b v
+  | None => inner_call (S (List.length cs)) cs v
   end.
 
 (* class table: the precedence list (Hierarchy()) of each class, most specific first; a nil
@@ -206,20 +236,30 @@ Fixpoint hier_of (ct : ctable) (c : cls) : list cls :=
 (* Aux.Call: the arguments are given by their classes; hiers are their Hierarchy() lists *)
 Definition spec_key (hiers : list (list cls)) : key := map (fun h => hd "t" h) hiers.
 
-Definition call (ct : ctable) (a : aux) (cs : list cls) : aux * (list event * result) :=
+(* buildCacheMeth: daemons alone are not callable *)
+Definition callable (cs : list combo) : bool :=
+  existsb (fun c => is_some (c_primary c) || is_some (c_wrap c)) cs.
+Definition build (ms : list (key * combo)) (hiers : list (list cls)) : option (list combo) :=
+  let snap := deref ms (collect ms [] hiers) in
+  if callable snap then Some snap else None.
+(* the fast path keeps a method of one combination with the primary only *)
+Definition dflt_method (b : body) : list combo :=
+  [{| c_primary := Some b; c_before := None; c_after := None; c_wrap := None |}].
+
+Definition call (ct : ctable) (a : aux) (cs : list cls) (v : argv) : aux * (list event * result) :=
   let hiers := map (hier_of ct) cs in
   match dflt a with
-  | Some b => (a, ([Ev (b_id b)], RVal (b_id b)))
+  | Some b => (a, inner_call 2 (dflt_method b) v)
   | None =>
       let ck := spec_key hiers in
       match alookup ck (cache a) with
-      | Some ks => (a, method_call (deref (methods a) ks))
+      | Some snap => (a, method_call snap v)
       | None =>
-          let ks := collect (methods a) [] hiers in
-          match ks with
-          | [] => (a, ([], RNoApplicable))
-          | _ => ({| methods := methods a; cache := ainsert ck ks (cache a); dflt := dflt a; reqcnt := reqcnt a |},
-                  method_call (deref (methods a) ks))
+          match build (methods a) hiers with
+          | None => (a, ([], RNoApplicable))
+          | Some snap =>
+              ({| methods := methods a; cache := ainsert ck snap (cache a); dflt := dflt a; reqcnt := reqcnt a |},
+               method_call snap v)
           end
       end
   end.
@@ -227,7 +267,7 @@ Definition call (ct : ctable) (a : aux) (cs : list cls) : aux * (list event * re
 Inductive op :=
 | OpDef (q : qual) (k : key) (b : body)
 | OpRemove (q : qual) (k : key)
-| OpCall (cs : list cls).
+| OpCall (cs : list cls) (v : argv).
 
 Definition out := option (list event * result).
 
@@ -235,7 +275,7 @@ Definition step (ct : ctable) (a : aux) (o : op) : aux * out :=
   match o with
   | OpDef q k b => (add_method a q k b, None)
   | OpRemove q k => (remove_method a q k, None)
-  | OpCall cs => let '(a', r) := call ct a cs in (a', Some r)
+  | OpCall cs v => let '(a', r) := call ct a cs v in (a', Some r)
   end.
 
 Fixpoint run (ct : ctable) (a : aux) (ops : list op) : aux * list out :=
